@@ -124,7 +124,7 @@ prop("C10",
      "becomes the server (B3b).", ["argparse semantics"], controls=["c10-rewrite-unconditional"])
 
 prop("C11",
-     lambda tier: [checksum.rule_fold_bound, checksum.rule_pseudo_header, checksum.rule_A3_packet, checksum.rule_A6b, B2_for("checksums")],
+     lambda tier: [checksum.rule_fold_bound, checksum.rule_pseudo_header, checksum.rule_A3_packet, checksum.rule_A6b, B2_for("checksums"), checksum.rule_udp_zero],
      "Decides: fold loop exits only with a 16-bit value and folds with >>16/&0xFFFF (FOLD); pseudo-header field order/widths for IPv4/IPv6 and "
      "checksum-field offsets TCP 16:18 / UDP 6:8 (T9c); every Packet attribute a routine reads exists in all Packet variants its call-site guard admits "
      "(A3); dispatch dominated by the verdict, verdict True without -c (A6b); TCP/UDP twins mirror (B2). Does not decide the arithmetic identity itself "
